@@ -357,12 +357,25 @@ func (x *Exec) symbolic(t types.Type, prefix string, facts *[]*Term) Value {
 	case *types.Slice:
 		sv := SliceV{Obj: b.Fresh(prefix+".obj", SInt), Off: b.Fresh(prefix+".off", SInt),
 			Len: b.Fresh(prefix+".len", SInt), Cap: b.Fresh(prefix+".cap", SInt), Elem: u.Elem()}
-		*facts = append(*facts, x.sliceInv(sv)...)
+		if x.noObjSign {
+			// values returned by callees or loop-carried may denote memory allocated in this activation,
+			// but not memory allocated later: ids only decrease, so obj >= the current allocation counter
+			*facts = append(*facts, x.sliceInvLoaded(sv)...)
+			*facts = append(*facts, b.mk("<=", SBool, "", nil, b.Int(x.allocFloor), sv.Obj))
+			b.SetBounds(sv.Obj, big.NewInt(x.allocFloor), nil)
+		} else {
+			*facts = append(*facts, x.sliceInv(sv)...)
+		}
 		return sv
 	case *types.Pointer:
 		o := b.Fresh(prefix+".ptr", SInt)
-		b.SetBounds(o, new(big.Int), nil)
-		*facts = append(*facts, b.mk("<=", SBool, "", nil, b.Int(0), o))
+		if !x.noObjSign {
+			b.SetBounds(o, new(big.Int), nil)
+			*facts = append(*facts, b.mk("<=", SBool, "", nil, b.Int(0), o))
+		} else {
+			b.SetBounds(o, big.NewInt(x.allocFloor), nil)
+			*facts = append(*facts, b.mk("<=", SBool, "", nil, b.Int(x.allocFloor), o))
+		}
 		off := b.Int(0)
 		if !isStructT(u.Elem()) && !isArrayT(u.Elem()) {
 			// pointer to a scalar: may point into an array
